@@ -94,9 +94,18 @@ static long gen_uri(CH *d, int flags, int K, int L, const char *name){
       if (hk == 0){
         if (flags & G_EMPTYHOST) n = g_run(d, n, 2, G_CLS_REGNAME, flags, name);
         else { n = g_tok(d, n, G_CLS_REGNAME, flags, name); n = g_run(d, n, 1, G_CLS_REGNAME, flags, name); }
+#ifdef GEN_IP4_FULL
+      } else if (hk == 1){ /* dotted quad with the first and last number of 1..3 fully symbolic digits (000..999): IPv4 when both <= 255 without leading zero, else reg-name */
+        int q, l0 = 1 + uk_choice(3, "octet0len"), l3 = 1 + uk_choice(3, "octet3len");
+        for (q = 0; q < l0; q++){ CH c = g_sym(name); uk_assume(g_is_digit(CHV(c))); d[n++] = c; }
+        n = g_lit(d, n, ".0.0.");
+        for (q = 0; q < l3; q++){ CH c = g_sym(name); uk_assume(g_is_digit(CHV(c))); d[n++] = c; }
+#else
       } else if (hk == 1){ /* IPv4: d.0.0.1d or d.0.0.1dd (octets 0..9, 10..19, 100..199) */
         CH c = g_sym(name); uk_assume(g_is_digit(CHV(c))); d[n++] = c; n = g_lit(d, n, ".0.0."); c = g_sym(name); uk_assume(g_is_digit(CHV(c))); d[n++] = '1'; d[n++] = c;
-        if (uk_choice(2, "octet3")){ c = g_sym(name); uk_assume(g_is_digit(CHV(c))); d[n++] = c; } }
+        if (uk_choice(2, "octet3")){ c = g_sym(name); uk_assume(g_is_digit(CHV(c))); d[n++] = c; }
+#endif
+      }
       else if (hk == 2){ CH c = g_sym(name); uk_assume(g_is_hex(CHV(c)) && !(CHV(c) >= 'A' && CHV(c) <= 'F')); n = g_lit(d, n, "[0000:0000:0000:0000:0000:0000:0000:000"); d[n++] = c; d[n++] = ']'; }
       else { CH c = g_sym(name); uk_assume(g_is_regname_nopct(CHV(c)) || CHV(c) == ':'); n = g_lit(d, n, "[v1."); d[n++] = c; d[n++] = ']'; }
     }
